@@ -417,6 +417,9 @@ class RequestPath(object):
                 continue
             if idx is None and isinstance(v, ast.Constant):
                 continue
+            if idx is None and isinstance(v, (ast.Dict, ast.List, ast.Set, ast.DictComp, ast.ListComp, ast.SetComp)):
+                continue     # a display / comprehension builds its container in this activation, like a call does (the
+                             # local is re-bound to a new object on that path: ``d = f(); d.update(x); d = {k: v for ..}``)
             if idx is None and isinstance(v, (ast.Attribute, ast.Subscript)) and self._part_of_request_local(fi, v, params, depth):
                 continue     # names a part of a per-request object: the same judgement as for a store through the chain itself
             return False
